@@ -5,7 +5,7 @@
 //	gvh-table lua         Lua chunks on the real runtime (hx.LuaEngine)
 //
 // hist input : <id> <stride> ; <op> ; <op> ; ...   (state digest after every stride-th op and the last one)
-//                   ops: S k v | R k v | G k | N k | L | W m p q fresh cap   (numbers in hex)
+//                   ops: S k v | R k v | G k | N k | L | E a b | W m p q fresh cap   (numbers in hex)
 // hist output: <id> H:<key=hexhash,...|-> O:<res> <state>|<res> <state>|...
 // values     : n b0 b1 i<hex, leading - if negative> f<16 hex bits> s<hex>|s- t<k> g<k> c<ptr>.<cls>
 package main
@@ -274,6 +274,24 @@ func (w *world) apply(t *rt.Table, f []string) (res string, panicked bool) {
 		return w.show(nk) + "," + w.show(nv) + "," + s, false
 	case "L":
 		return strconv.FormatInt(t.Len(), 16), false
+	case "E":
+		// value equality against table-key identity for one pair of values, all at run time:
+		// Value.Equals, RawEqual (what rawequal and == without __eq use), and "same entry"
+		a, b := w.parse(f[1]), w.parse(f[2])
+		bit := func(x bool) string {
+			if x {
+				return "1"
+			}
+			return "0"
+		}
+		req, _ := rt.RawEqual(a, b)
+		same := "-"
+		if !a.IsNil() && !a.IsNaN() {
+			tt := rt.NewTable()
+			tt.Set(a, rt.BoolValue(true))
+			same = bit(!tt.Get(b).IsNil())
+		}
+		return "q" + bit(a.Equals(b)) + bit(req) + same, false
 	case "W":
 		m, p, q, fresh, capn := hexn(f[1]), hexn(f[2]), hexn(f[3]), int64(hexn(f[4])), hexn(f[5])
 		var vis []rt.Value
@@ -349,6 +367,9 @@ func histEngine(in *bufio.Scanner, out *bufio.Writer, verbose bool) {
 			switch f[0] {
 			case "S", "R", "G", "N":
 				addHash(f[1])
+			case "E":
+				addHash(f[1])
+				addHash(f[2])
 			case "L":
 				// len probes IntValue(len+1), len+2, ... in the hash part: report the hashes of
 				// the integers just above the current array length
